@@ -5,6 +5,9 @@
 import Rpki.Props.C02
 import Rpki.Model.SigMsg
 import Rpki.Proofs.CrlDerLemmas
+import Rpki.Gen.BerEq
+import Rpki.Gen.BerLemmas
+import Rpki.Gen.BerMonoGen
 namespace Rpki.Props.C10
 set_option autoImplicit false
 open Rpki.SigObj Rpki.SigMsg Rpki.Der
@@ -177,5 +180,42 @@ theorem accepted_message_octets (b : Bytes) (m : SigMsgD) (hd : decodeSigMsg b =
     rw [← this]; exact h8
 
 end Octets
+
+/-! ### the same in either decoding mode
+
+The protocol wrappers `ProvisioningCms::decode` / `PublicationCms::decode` read the message in relaxed (BER) mode.
+`decodeSigMsgM ber` is the mode-parametrized decoder (`Gen/BerModel.lean`; `ber = false` is `decodeSigMsg`, a
+theorem), tied to the library by the `msgr` / `smsgdr` operations. -/
+section EitherMode
+open Rpki.SigMsgDer
+
+theorem accepted_message_octets_either_mode (ber : Bool) (b : Bytes) (m : SigMsgD) (hd : decodeSigMsgM ber b = some m)
+    (sigKeyOk eeSigOk crlSigOk : Bool) (sigInput peer : Bytes) (when : Int)
+    (h : SigMsg.validateAt Sha.sha256N (toMsgM ber m sigKeyOk sigInput eeSigOk crlSigOk) peer when = true) :
+    Sha.sha256N m.content = m.messageDigest ∧ sigKeyOk = true ∧ sigInput = tlv 0x31 m.attrs ∧
+    m.sid = m.cert.ski ∧ m.cert.ski = Sha.sha1N m.cert.keyBits ∧ eeSigOk = true ∧
+    m.cert.validity.nb ≤ when ∧ when ≤ m.cert.validity.na ∧ (∀ a, m.cert.aki = some a → a = peer) ∧
+    m.cert.basicCa ≠ some true ∧
+    m.crl.innerParam = m.crl.outerParam ∧ crlSigOk = true ∧
+    CertDer.civilToEpoch m.crl.thisUpdate ≤ when ∧ when ≤ CertDer.civilToEpoch m.crl.nextUpdate ∧
+    (∀ a, m.crl.aki = some a → a = peer) ∧
+    (∀ l, msgRevokedSerialsM ber m.crl.revoked = some l → m.cert.serial ∉ l) := by
+  obtain ⟨st, hp⟩ := decodeSigMsg_specM ber b m hd
+  obtain ⟨_, ⟨md, st', h1, h2⟩, h3, h4, h5, h6, h7, h8⟩ := (validateAt_iff _ _ peer when).1 h
+  have hp' : SigObj.parseAttrsM ber false m.attrs = some (Consts.oidProtocolContentType, md, st') :=
+    C02.parseAttrs_any_mode ber false m.attrs _ h1
+  rw [hp] at hp'
+  simp only [Option.some.injEq, Prod.mk.injEq] at hp'
+  obtain ⟨e1, e2, e3, e4, e5⟩ := (eeValid_iff _ peer when).1 h6
+  obtain ⟨c1, c2, c3, c4, c5⟩ := (crlValid_iff _ peer when).1 h7
+  refine ⟨by rw [hp'.2.1]; exact h2, h4, h5, h3, e1, e5, e2.1, e2.2, e3, e4, ?_, c2, c3, c4, c5, ?_⟩
+  · exact eq_of_beq c1
+  · intro l hl
+    have : (toMsgM ber m sigKeyOk sigInput eeSigOk crlSigOk).crl.revoked = l := by
+      show (msgRevokedSerialsM ber m.crl.revoked).getD [] = l
+      rw [hl]; rfl
+    rw [← this]; exact h8
+
+end EitherMode
 
 end Rpki.Props.C10
